@@ -17,8 +17,10 @@ PROGRAMS = {
     "three": [("enter", 1), ("enter", 2), ("enter", 3), ("call", "call"), ("leave",), ("leave",), ("call", "notify"), ("leave",), ("call", "batch")],
     "seq": [("enter", 1), ("call", "call"), ("leave",), ("enter", 2), ("call", "call"), ("leave",), ("call", "call")],
     "seq_raise": [("enter", 1), ("raise_leave",), ("enter", 2), ("call", "call"), ("leave",), ("call", "call")],
+    "one_base": [("enter", 1), ("call", "call"), ("base_leave",), ("call", "call")],
+    "two_base_inner": [("enter", 1), ("enter", 2), ("base_leave",), ("call", "call"), ("leave",), ("call", "notify")],
 }
-NDICTS = {"ctor": 1, "one": 2, "one_raise": 2, "two": 3, "two_raise_inner": 3, "two_raise_outer": 3, "three": 4, "seq": 3, "seq_raise": 3}
+NDICTS = {"ctor": 1, "one": 2, "one_raise": 2, "two": 3, "two_raise_inner": 3, "two_raise_outer": 3, "three": 4, "seq": 3, "seq_raise": 3, "one_base": 2, "two_base_inner": 3}
 
 
 def obligations(tier, H):
@@ -59,6 +61,20 @@ def obligations(tier, H):
                     leaves.append(("w", "str"))
                 shape = {"prog": prog, "ops": ops, "dicts": dicts, "ctor": ctor}
                 add(shape, leaves)
+    # dictionaries with two entries, a protected name (any letter case) first or second
+    for prog in ("ctor", "one", "two"):
+        nd = NDICTS[prog]
+        for first, second in ((4, 0), (5, 3), (8, 7), (0, 4), (6, 5), (3, 9)):
+            for where in range(nd):
+                dicts, leaves = [], []
+                for k in range(nd):
+                    if k == where:
+                        dicts.append([(first, "a{0}".format(k)), (second, "b{0}".format(k))])
+                        leaves += [("a{0}".format(k), "str"), ("b{0}".format(k), "str")]
+                    else:
+                        dicts.append([(1, "v{0}".format(k))])
+                        leaves.append(("v{0}".format(k), "str"))
+                add({"prog": prog, "ops": PROGRAMS[prog], "dicts": dicts, "ctor": True}, leaves)
     return obs
 
 
